@@ -28,7 +28,8 @@ class SemiCylinder(RoundSolidShape):
         axis = np.asarray(axis_point_2) - axis_point_1
         radius_point_1 = np.asarray(radius_point_1)
 
-        diff = np.dot(axis, radius_point_1 - axis_point_1)
+        # (the distance of radius point from the plane through axis point: the axis is not a unit vector)
+        diff = np.dot(f.unit_vector(axis), radius_point_1 - axis_point_1)
         if abs(diff) > TOL:
             raise CylinderCreationError(
                 "Axis and radius vectors are not perpendicular", f"Difference: {diff}, tolerance: {TOL}"
